@@ -262,12 +262,13 @@ static void histories(int maxDepth) {
     tt.clear();
     std::vector<std::pair<State, std::string>> frontier{{snapshot(0), ""}}, next;
     std::set<std::string> seen{keyOf(frontier[0].first)};
-    unsigned long long expandId = 0;
+    unsigned long long expandId = 0, pollCtr = 0;
     for (int depth = 1; depth <= maxDepth; depth++) {
         next.clear();
         for (auto& fr : frontier) {
-            // the first two levels are expanded by every worker (shared prefix), deeper states are dealt round-robin
-            if (depth > 2 && !W->mine(expandId++)) continue;
+            // the first two levels are expanded by every worker (shared prefix); the states of the third level are dealt round-robin, and from then
+            // on every worker expands all descendants of its share (a state reached from two shares is expanded by both: redundant, never lost)
+            if (depth == 3 && !W->mine(expandId++)) continue;
             for (int o = 0; o < nOps; o++) {
                 install(fr.first);
                 unsigned mask = fr.first.mask;
@@ -300,7 +301,7 @@ static void histories(int maxDepth) {
                 std::string k = keyOf(after);
                 if (seen.insert(k).second) { R.count("states"); if (mask) R.count("nontrivial"); if (depth < maxDepth) next.push_back({after, hist}); }
             }
-            if ((expandId & 0x3ff) == 0 && W->dl.hit()) { R.exhaustive = false; return; }
+            if ((++pollCtr & 0x3ff) == 0 && W->dl.hit()) { R.exhaustive = false; return; }
         }
         frontier.swap(next);
         R.maxOf("max_depth", depth);
